@@ -63,10 +63,27 @@ class CaseOut:
         self.spec = None
 
 
-def _worker(modname, spec, prop, tier, seed, timeout_ms):
+def _watchdog(marker, budget):
+    """z3 does not always honour its own time limit (exact simplex pivoting does not poll the timer): a case that exceeds
+    its wall-clock budget is ended with its worker process; the parent records it as undecided and goes on."""
+    import threading
+
+    def kill():
+        try:
+            open(marker, 'w').write('killed')
+        finally:
+            os._exit(99)
+    t = threading.Timer(budget, kill)
+    t.daemon = True
+    t.start()
+    return t
+
+
+def _worker(modname, spec, prop, tier, seed, timeout_ms, marker=None, budget=None):
     out = CaseOut()
     out.spec = spec
     t0 = time.time()
+    wd = _watchdog(marker, budget) if marker and budget else None
     if os.environ.get('RSV_FAULT'):
         import faulthandler
         faulthandler.dump_traceback_later(int(os.environ['RSV_FAULT']), exit=True,
@@ -83,6 +100,8 @@ def _worker(modname, spec, prop, tier, seed, timeout_ms):
     except Exception as e:  # noqa
         out.error = '%s: %s\n%s' % (type(e).__name__, e, traceback.format_exc())
     out.wall = time.time() - t0
+    if wd is not None:
+        wd.cancel()
     return out
 
 
@@ -106,10 +125,51 @@ def run_check(prop, tier, seed, jobs=None, only=None):
         for s in specs:
             outs.append(_worker(modname, s, prop, tier, seed, timeout_ms))
     else:
-        with cf.ProcessPoolExecutor(max_workers=jobs) as ex:
-            futs = [ex.submit(_worker, modname, s, prop, tier, seed, timeout_ms) for s in specs]
-            for f in futs:
-                outs.append(f.result())
+        from concurrent.futures.process import BrokenProcessPool
+        budget = int(os.environ.get('RSV_CASE_BUDGET', '0')) or (900 if tier == 'quick' else 2700)
+        scratch = os.path.join(ROOT, '.scratch')
+        os.makedirs(scratch, exist_ok=True)
+        tag = 'wd-%d-%d' % (os.getpid(), int(t0))
+        results = {}
+        pending = list(range(len(specs)))
+        rounds = 0
+        while pending and rounds < 6:
+            rounds += 1
+            with cf.ProcessPoolExecutor(max_workers=jobs) as ex:
+                futs = {ex.submit(_worker, modname, specs[i], prop, tier, seed, timeout_ms,
+                                  os.path.join(scratch, '%s-%d' % (tag, i)), budget): i for i in pending}
+                for f in cf.as_completed(futs):
+                    try:
+                        results[futs[f]] = f.result()
+                    except BrokenProcessPool:
+                        break
+                    except Exception as e:  # noqa
+                        o = CaseOut()
+                        o.spec = specs[futs[f]]
+                        o.error = '%s: %s' % (type(e).__name__, e)
+                        results[futs[f]] = o
+            for i in list(pending):
+                mk = os.path.join(scratch, '%s-%d' % (tag, i))
+                if i not in results and os.path.exists(mk):
+                    os.unlink(mk)
+                    o = CaseOut()
+                    o.spec = specs[i]
+                    o.wall = float(budget)
+                    from .smt import Stats
+                    o.stats = Stats()
+                    o.stats.obligations = 1
+                    o.stats.undecided = 1
+                    o.stats.kinds['watchdog'] = 1
+                    o.stats.notes.append('undecided: case exceeded its wall-clock budget of %d s and was ended (solver ignored its '
+                                         'time limit): %s' % (budget, repr(specs[i])[:160]))
+                    results[i] = o
+            pending = [i for i in pending if i not in results]
+        for i in pending:
+            o = CaseOut()
+            o.spec = specs[i]
+            o.harness_error = 'case could not be run (worker pool broke repeatedly)'
+            results[i] = o
+        outs = [results[i] for i in range(len(specs))]
     return finish(mod, prop, tier, seed, specs, outs, time.time() - t0)
 
 
